@@ -97,13 +97,17 @@ def run_group(filters, repo, timeout, extra=None, jobs=None):
         cmd += ["--harness", f]
     cmd += ["-j", str(jobs or JOBS), "--output-format", "terse"]
     t0 = time.time()
+    # own session, so that a timeout can take the cbmc children down with cargo
+    import signal
+    proc = subprocess.Popen(cmd, cwd=d, env=env_for(repo), stdout=subprocess.PIPE, stderr=subprocess.STDOUT, text=True, start_new_session=True)
     try:
-        p = subprocess.run(cmd, cwd=d, env=env_for(repo), capture_output=True, text=True, timeout=timeout)
-        out = p.stdout + "\n" + p.stderr
-        rc = p.returncode
-    except subprocess.TimeoutExpired as e:
-        out = (e.stdout or b"").decode(errors="replace") if isinstance(e.stdout, bytes) else (e.stdout or "")
-        out += "\nTIMEOUT"
+        out, _ = proc.communicate(timeout=timeout)
+        rc = proc.returncode
+    except subprocess.TimeoutExpired:
+        try: os.killpg(proc.pid, signal.SIGKILL)
+        except Exception: pass
+        out, _ = proc.communicate()
+        out = (out or "") + "\nTIMEOUT"
         rc = 124
     return " ".join(cmd), rc, out, time.time() - t0
 
@@ -149,7 +153,7 @@ def run_kani_for(pid, u, repo, tier, seed):
                 r["status"] = "undecided" if r["status"] == "ok" else r["status"]
                 r["reason"] += f" {short}: format stub was not applied;"
         elif x["status"] == "failed":
-            r["discharged"] += x["total"] - x["failed"]
+            r["discharged"] += x["total"] - (x["failed"] if (mine or not x["failed_checks"] or x["unwind_fail"]) else 0)   # failures of other properties only: this property's obligations held
             if mine:
                 r["status"] = "violation"
                 names = sorted({m.group(2) for c in mine for m in PID_RE.finditer(c) if pid in m.group(1).split(",")}) or ["panic_or_overflow"]
@@ -183,7 +187,16 @@ def run_kani_for(pid, u, repo, tier, seed):
     # attach counterexamples now (needed by the driver to print the VIOLATION line with a replay)
     for v in r["violations"][:2]:   # concrete playback costs about as much as the proof; the first two are enough to replay
         try:
-            ce = counterexample(v["kani_harness"], repo)
+            # fast path: the harness body is natively enumerable (derive / container bodies): find a failing input of the same obligation there
+            ce = None
+            short = v["payload"]["short"]
+            if u.get("enumerable", True):
+                x = enumerate_harness(short, repo, timeout=300, want=pid)
+                if x.get("status") == "failed":
+                    ce = {"status": "reproduced", "harness": short, "values": x["values"], "native_failed_obligations": x["failed"], "replay_cmd": x["replay_cmd"],
+                          "source": "exhaustive native execution of the same harness body (Kani reported the obligation as failed)"}
+            if ce is None:
+                ce = counterexample(v["kani_harness"], repo)
         except Exception as e:
             ce = None
             v["payload"]["ce_error"] = str(e)
@@ -251,17 +264,18 @@ def native_bin(repo):
         raise RuntimeError("native build failed: " + p.stderr[-800:])
     return os.path.join(e["CARGO_TARGET_DIR"], "release", "replay")
 
-def enumerate_harness(short, repo, max_runs=20000000, timeout=900):
+def enumerate_harness(short, repo, max_runs=20000000, timeout=900, want=None):
     """exhaustive native walk of the decision tree of a harness body -> (status, runs, failed obligations, values)"""
     b = native_bin(repo)
     try:
-        p = subprocess.run([b, "--enumerate", short, str(max_runs)], capture_output=True, text=True, timeout=timeout)
+        p = subprocess.run([b, "--enumerate", short, str(max_runs)] + ([want] if want else []), capture_output=True, text=True, timeout=timeout)
     except subprocess.TimeoutExpired:
         return {"status": "timeout", "runs": 0}
     out = p.stdout
     m = re.search(r"ENUM-OK (\d+) runs", out)
     if m:
-        return {"status": "ok", "runs": int(m.group(1))}
+        om = re.search(r"ENUM-OTHER (\d+) runs failed obligations of other properties only, e.g. (.*) with", out)
+        return {"status": "ok", "runs": int(m.group(1)), "other_property_failures": int(om.group(1)) if om else 0, "other_example": om.group(2) if om else None}
     m = re.search(r"ENUM-FAILED after (\d+) runs: (.*)", out)
     if m:
         vm = re.search(r"ENUM-VALUES (.*)", out)
@@ -285,8 +299,8 @@ def run_enum_for(pid, u, repo, tier, seed):
         return r
     samples = []
     for h in hs:
-        x = enumerate_harness(h, repo)
-        info["harnesses"][h] = {k: x.get(k) for k in ("status", "runs")}
+        x = enumerate_harness(h, repo, want=pid)
+        info["harnesses"][h] = {k: x.get(k) for k in ("status", "runs", "other_property_failures")}
         r["obligations"] += 1
         if x["status"] == "ok":
             r["discharged"] += 1
